@@ -43,7 +43,7 @@ TRUSTED = [
 ]
 BINS = ["coreast", "idedump"]
 
-# inputs that show a defect of the unchanged tree (reported to the lead; see design/notes-C05.md)
+# regression inputs: defects found by this check and repaired in /repo (fixed: lines D27, D28 of known_findings.txt)
 DIRECTED = [
     {"key": "defvar-untyped-init",
      "text": "defvar x = !cond(1: 1, true: 2); def D { int y = x; }",
@@ -51,6 +51,9 @@ DIRECTED = [
     {"key": "defset-name-unresolvable",
      "text": "class A; defset list<A> S = { def q : A; }  def E { list<A> y = S; }",
      "use": [64, 65], "decl": [24, 25]},
+    {"key": "foreach-untyped-init",
+     "text": "foreach i = !cond(1: [1], true: [2]) in { def D#i { int y = i; } }",
+     "use": [60, 61], "decl": [8, 9]},
 ]
 
 
@@ -94,7 +97,7 @@ def llvm_audit(ctx, progs, limit):
             else:
                 res["disagree"].append({"files": p.files, "why": "llvm-tblgen accepts an out-of-scope use"})
         else:
-            if rc == 0:
+            if rc == 0 or ("assertion failed" in out and out.count("error:") == out.count("error: assertion failed")):
                 res["accepted"] += 1
             else:
                 res["disagree"].append({"files": p.files, "why": "llvm-tblgen rejects: " + out[-400:]})
